@@ -1,11 +1,11 @@
 package main
 
 import (
-	"hash/fnv"
 	"fmt"
 	"go/constant"
 	"go/token"
 	"go/types"
+	"hash/fnv"
 	"strings"
 
 	"golang.org/x/tools/go/ssa"
